@@ -564,7 +564,14 @@ class Body:
                     base = ("field", base, nm)
             elif "d" in pr:
                 base = ("downcast", base, pr["d"])
-            elif "idx" in pr or "cidx" in pr or "sub_from" in pr:
+            elif "idx" in pr:
+                # keep the index value's provenance as a third element (constant indices into fixed arrays matter)
+                try:
+                    io = self._origin_local(pr["idx"], depth + 1, through_calls, seen, chooser)
+                except Exception:
+                    io = ("unknown",)
+                base = ("index", base, io)
+            elif "cidx" in pr or "sub_from" in pr:
                 base = ("index", base)
         return base
 
@@ -1086,7 +1093,7 @@ def o_str(o, depth=0):
     if k == "downcast":
         return "(%s as %s)" % (o_str(o[1], depth + 1), o[2])
     if k == "index":
-        return "%s[..]" % o_str(o[1], depth + 1)
+        return "%s[%s]" % (o_str(o[1], depth + 1), o_str(o[2], depth + 1) if len(o) > 2 else "..")
     if k == "agg":
         rv = o[1]
         nm = rv.get("adt") or rv.get("def") or rv.get("ak")
